@@ -59,6 +59,28 @@ def with_nested(fi: FuncInfo) -> List[FuncInfo]:
     return out
 
 
+def with_helpers(eng, fi: FuncInfo) -> List[FuncInfo]:
+    """fi, its nested functions and — transitively — the private methods of its own class they call (`self._step(...)`),
+    each with its nested functions: a closure moved to a private method is still part of the same machinery."""
+    out: List[FuncInfo] = []
+    seen = set()
+    own = fi.enclosing_class() or fi.outermost().enclosing_class()
+    todo = [fi]
+    while todo:
+        f = todo.pop(0)
+        for g in with_nested(f):
+            if g.qualname in seen:
+                continue
+            seen.add(g.qualname)
+            out.append(g)
+            for c in calls(g):
+                for t in eng.repo_callees(g, c):
+                    tc = t.enclosing_class()
+                    if own is not None and tc is not None and tc.name == own.name and t.name.startswith("_") and not t.name.startswith("__") and t.qualname not in seen:
+                        todo.append(t)
+    return out
+
+
 def resolved_sites(eng, target_qual: str, within: Optional[Iterable[FuncInfo]] = None):
     """(caller FuncInfo, Call) for every call that may resolve to target."""
     out = []
